@@ -241,6 +241,9 @@ func c13Gen(r *Rng, tier string, i int) Sx {
 	if r.Chance(1, 8) {
 		opts = append(opts, L(A("intercept"), S(r.Pick([]string{" ", "/u/ab", "a", "/a/"}))))
 	}
+	if r.Chance(1, 5) {
+		opts = append(opts, L(A("lateopt")))
+	}
 	var qs []Sx
 	for k := 0; k < 12; k++ {
 		m := r.Pick(c13HostileMethods)
